@@ -451,9 +451,10 @@ Proof. exact without_item_cow. Qed.
    they are flat (a non-reference, or a container of non-references). *)
 Theorem C03_constructor_preserves_owned :
   forall ct, flat_table ct -> no_inval_table ct -> no_reserved_names ct ->
-  forall roots c k kw s,
+  forall roots c k pos kw s,
     ctor_class ct c k -> Inv ct (heap s) -> kw_flat kw (heap s) ->
-    Inv ct (heap (snd (step ct roots (OpConstruct c None kw) s))).
+    match pos with Some v => flat_val (heap s) v | None => True end ->
+    Inv ct (heap (snd (step ct roots (OpConstruct c pos kw) s))).
 Proof. exact step_construct. Qed.
 
 Theorem C03_del_preserves_owned :
@@ -471,6 +472,25 @@ Theorem C03_reset_inplace_preserves_owned :
        forall sp, lookup_attr k a = Some sp -> leaf_attr sp /\ default_ok k sp) ->
     Inv ct (heap (snd (step ct roots (OpHelper x (HReset a) hh) s))).
 Proof. exact step_reset_inplace. Qed.
+
+Theorem C03_reset_copy_on_write :
+  forall ct, flat_table ct -> no_inval_table ct -> no_reserved_names ct ->
+  forall l a hh s cl d k,
+    h_inplace hh = false -> Inv ct (heap s) -> flat_recv ct l (heap s) cl d k ->
+    (forall sp, lookup_attr k a = Some sp -> leaf_attr sp /\ default_ok k sp) ->
+    Inv ct (heap (snd (run_helper ct l (HReset a) hh s))).
+Proof. exact reset_cow. Qed.
+
+(* obj.reset(), in place and copy-on-write: every attribute is deleted / reset in turn, an
+   AttributeError of one of them is swallowed and the loop goes on (the frame survives
+   failures) *)
+Theorem C03_reset_all_preserves_owned :
+  forall ct, flat_table ct -> no_inval_table ct -> no_reserved_names ct ->
+  forall l hh s cl d k,
+    Inv ct (heap s) -> flat_recv ct l (heap s) cl d k ->
+    (forall a sp, lookup_attr k a = Some sp -> leaf_attr sp /\ default_ok k sp) ->
+    Inv ct (heap (snd (run_helper ct l HResetTop hh s))).
+Proof. exact reset_all. Qed.
 
 (* ---------------- 9. update_ / transform_ helpers (OwnMore.v) ----------------
    qfn f: the callback reads nothing from the heap and allocates at most one container of
@@ -618,6 +638,11 @@ Example C03_owned_guards_hold :
   nth_error (heap (snd (exRun2 (OpDelAttr 0 90)))) 0
     = Some (OInst 1 [(1, VInt 3%Z); (50, VRef 1); (70, VRef 2); (80, VRef 3); (90, VRef 8)]) /\
   exGood (OpHelper 0 (HReset 90) (exArgs [] true)) = true /\
+  exGood (OpHelper 0 (HReset 50) (exArgs [] false)) = true /\
+  exGood (OpHelper 0 (HReset 90) (exArgs [] false)) = true /\
+  exGood (OpHelper 0 HResetTop (exArgs [] true)) = true /\
+  nth_error (heap (snd (exRun2 (OpHelper 0 HResetTop (exArgs [] true))))) 0 = Some (OInst 1 [(90, VRef 8)]) /\
+  exGood (OpHelper 0 HResetTop (exArgs [] false)) = true /\
   (* preparers: the assigned list is copied and every element goes through the item preparer *)
   exGood (OpSetAttr 0 100 (VRef 4)) = true /\
   nth_error (heap (snd (exRun2 (OpSetAttr 0 100 (VRef 4))))) 8 = Some (OList [VInt 6%Z]) /\
@@ -693,6 +718,8 @@ Print Assumptions C03_without_item_copy_on_write.
 Print Assumptions C03_constructor_preserves_owned.
 Print Assumptions C03_del_preserves_owned.
 Print Assumptions C03_reset_inplace_preserves_owned.
+Print Assumptions C03_reset_copy_on_write.
+Print Assumptions C03_reset_all_preserves_owned.
 Print Assumptions C03_update_item_preserves_owned.
 Print Assumptions C03_transform_item_preserves_owned.
 Print Assumptions C03_update_preserves_owned.
